@@ -170,7 +170,7 @@ func c14NestedHosts() map[string]string {
 		"output": "rpc hr { output { %s } }", "notification": "notification hn { %s }",
 		"action-input": "container hc { action ha { input { %s } } }", "grouping": "grouping hg { %s } uses hg;",
 		"grouping-in-input": "grouping hg { %s } rpc hr { input { uses hg; } }",
-		"augment": "augment \"/c\" { %s }", "uses-augment": "uses gc { augment gcc { %s } }",
+		"augment":           "augment \"/c\" { %s }", "uses-augment": "uses gc { augment gcc { %s } }",
 		"nested-notification": "container hc { notification hn { %s } }",
 	}
 	inner := map[string]string{
